@@ -129,9 +129,9 @@ TEXTS = {
          "record's cell or None when the record is short, excess cells ignored, dtypes by inference, empty inputs give empty tables "
          "(row count holds whenever the header has a cell: refuted otherwise, by design of 'one column per header cell'); " + CORR
          + " as a round trip through csv.writer (delimiters, quoting, CR/LF, path vs file object, look-alike numerals)"
-         + TR.format("_infer_type - EqCsv.v, 5 theorems"),
+         + TR.format("_infer_type and the record reader _read_csv_from_file (a shape pin) - EqCsv.v + EqCsvReader.v, 13 theorems"),
          TRUST.format(" and the translator") + "The lexical layer is csv.reader's (csv.reader o csv.writer = id assumed).",
-         "Rocq proof over the record-list model; cell conversion regenerated from source; round-trip correspondence"),
+         "Rocq proof over the record-list model; cell conversion and record reader regenerated from source; round-trip correspondence"),
 }
 
 
